@@ -11,8 +11,8 @@ PKG=$(python3 -c "import json;print(json.load(open('$D/meta.json'))['demo_pkg_di
 RUN=$(python3 -c "
 import json,re
 r=json.load(open('$D/meta.json'))['demo_run']
-r=re.sub(r'^\s*cd\s+\S+(\s+\S+)?\s*&&\s*','',r) if r.strip().startswith('cd <') or r.strip().startswith('cd /tmp/seedwt') else r
-print(r)")
+m=re.search(r'go test.*', r)
+print(m.group(0).split('&&')[0].strip() if m else r)")
 DEMOS=$(ls $D/*_test.go 2>/dev/null)
 cp $DEMOS $WT/$PKG/ || exit 2
 ( cd $WT; eval "$RUN" ) > $D/confirm_without.log 2>&1; WITHOUT=$?
